@@ -18,7 +18,9 @@
 #define BS_SKIP(p) (BS_RAWHDR && BUS_PID(p) == g_u32)
 #define BS_FULL_OLD(p) (OLD((p)->send_queue.lmq_len) >= (p)->send_queue.lmq_cap)
 #define BS_TAKES(p) (!BS_SKIP(p) && (!OLD((p)->busy) || !BS_FULL_OLD(p)))
-#define BS_PIPE_PRE(i, p) (g_np <= (i) || (BUS_LMQ_PRE(&(p)->send_queue) && BUS_PID(p) != 0))
+/* the queue shape is required of all three skeleton pipes (attached or not): the OLD() snapshots of the
+ * postconditions are evaluated unconditionally at entry */
+#define BS_PIPE_PRE(i, p) (BUS_LMQ_PRE(&(p)->send_queue) && (g_np <= (i) || BUS_PID(p) != 0))
 #define BS_PIPE_ASSIGNS(i, p) \
 __CPROVER_assigns(g_np > (i): (p)->busy, (p)->aio_send.a_msg, (p)->send_queue.lmq_put, (p)->send_queue.lmq_len, __CPROVER_object_whole((p)->send_queue.lmq_msgs))
 #define BS_Q_SAME(p) ((p)->send_queue.lmq_len == OLD((p)->send_queue.lmq_len) && (g_j >= (p)->send_queue.lmq_len || LMQ_VIEW(&(p)->send_queue, g_j) == OLD(LMQ_VIEW(&(p)->send_queue, g_j))))
@@ -47,18 +49,25 @@ BS_PIPE_ASSIGNS(0, g_bp0) BS_PIPE_ASSIGNS(1, g_bp1) BS_PIPE_ASSIGNS(2, g_bp2)
 __CPROVER_frees(BS_M, BS_M->m_body.ch_buf)
 __CPROVER_ensures(VP_NO_LOCK_HELD && VP_AIOQS_OK)
 /* C09/C15: BUS send NEVER blocks - for EVERY timeout setting of the aio (the timeout is not
- * consulted: nni_aio_start is never reached) it completes in the call, with success */
+ * consulted: nni_aio_start is never reached) it completes in the call, with success.
+ * (postcondition.2: fails on the current tree = known finding D11, see known_findings.json) */
 __CPROVER_ensures(g_start_calls == OLD(g_start_calls))
-__CPROVER_ensures(g_fin_calls == OLD(g_fin_calls) + 1 && g_fin_last == aio && g_fin_last_rv == 0 && g_fin_last_count == OLD(BS_M->m_body.ch_len) && aio->a_msg == NULL)
+/* everything below is stated for every run that the aio layer did not refuse (BS_REFUSED is
+ * impossible once D11 is repaired; while it is not, the fan-out obligations stay checked on
+ * the accepted path) */
+#define BS_REFUSED (g_start_calls != OLD(g_start_calls) && !g_aio_start_ok)
+__CPROVER_ensures(BS_REFUSED || (g_fin_calls == OLD(g_fin_calls) + 1 && g_fin_last == aio && g_fin_last_rv == 0 && g_fin_last_count == OLD(BS_M->m_body.ch_len) && aio->a_msg == NULL))
 /* C09: one copy offered to every attached pipe except the origin, at most once each */
-__CPROVER_ensures(BS_PIPE_POST(0, g_bp0, g_sent0))
-__CPROVER_ensures(BS_PIPE_POST(1, g_bp1, g_sent1))
-__CPROVER_ensures(BS_PIPE_POST(2, g_bp2, g_sent2))
-__CPROVER_ensures(g_pipe_send_calls == OLD(g_pipe_send_calls) + (g_sent0 - OLD(g_sent0)) + (g_sent1 - OLD(g_sent1)) + (g_sent2 - OLD(g_sent2)))
+__CPROVER_ensures(BS_REFUSED || BS_PIPE_POST(0, g_bp0, g_sent0))
+__CPROVER_ensures(BS_REFUSED || BS_PIPE_POST(1, g_bp1, g_sent1))
+__CPROVER_ensures(BS_REFUSED || BS_PIPE_POST(2, g_bp2, g_sent2))
+__CPROVER_ensures(BS_REFUSED || g_pipe_send_calls == OLD(g_pipe_send_calls) + (g_sent0 - OLD(g_sent0)) + (g_sent1 - OLD(g_sent1)) + (g_sent2 - OLD(g_sent2)))
 /* C03: the caller's reference is released exactly once: what remains is one reference per taker */
-__CPROVER_ensures(BS_NTAKEN == 0 ? __CPROVER_was_freed(OLD(BS_M)) : (!__CPROVER_was_freed(OLD(BS_M)) && OLD(BS_M)->m_refcnt.v == (int) BS_NTAKEN))
+__CPROVER_ensures(BS_REFUSED || (BS_NTAKEN == 0 ? __CPROVER_was_freed(OLD(BS_M)) : (!__CPROVER_was_freed(OLD(BS_M)) && OLD(BS_M)->m_refcnt.v == (int) BS_NTAKEN)))
 /* the copies carry no BUS header: cooked strips it, raw consumes the origin word */
-__CPROVER_ensures(BS_NTAKEN > 0 ==> OLD(BS_M)->m_header_len == (g_s->raw ? (OLD(BS_M->m_header_len) >= 4 ? OLD(BS_M->m_header_len) - 4 : OLD(BS_M->m_header_len)) : 0))
+__CPROVER_ensures((!BS_REFUSED && BS_NTAKEN > 0) ==> OLD(BS_M)->m_header_len == (g_s->raw ? (OLD(BS_M->m_header_len) >= 4 ? OLD(BS_M->m_header_len) - 4 : OLD(BS_M->m_header_len)) : 0))
+/* refused by the aio layer (only reachable through D11): nothing was sent, queued or released */
+__CPROVER_ensures(BS_REFUSED ==> (!__CPROVER_was_freed(OLD(BS_M)) && g_fin_calls == OLD(g_fin_calls) && g_pipe_send_calls == OLD(g_pipe_send_calls)))
 ;
 
 /* =====================================================================
